@@ -9,6 +9,7 @@ from vsc.model.expr_fieldref_model import ExprFieldRefModel
 from vsc.model.expr_bin_model import ExprBinModel
 from vsc.model.bin_expr_type import BinExprType
 from vsc.model.expr_literal_model import ExprLiteralModel
+from vsc.model.expr_cond_model import ExprCondModel
 from vsc.model.enum_field_model import EnumFieldModel
 
 class FieldArrayModel(FieldCompositeModel):
@@ -137,6 +138,20 @@ class FieldArrayModel(FieldCompositeModel):
         super().set_used_rand(is_rand, level, in_set)
         self.size.set_used_rand(is_rand, level+1, in_set)
         
+    def _elem_expr(self, i, dflt):
+        """Element i as a term of sum/product. The elements of a random-size list
+        lying at or beyond the size being solved are not part of the list"""
+        ret = ExprFieldRefModel(self.field_l[i])
+        if self.is_rand_sz:
+            ret = ExprCondModel(
+                ExprBinModel(
+                    ExprLiteralModel(i, False, 32),
+                    BinExprType.Lt,
+                    ExprFieldRefModel(self.size)),
+                ret,
+                ExprLiteralModel(dflt, self.is_signed, self.type_t.width))
+        return ret
+        
     def get_sum_expr(self):
         if self.sum_expr is None:
             # Build
@@ -155,11 +170,10 @@ class FieldArrayModel(FieldCompositeModel):
             # match user expectation
             ret = ExprLiteralModel(0, self.is_signed, result_bits)
             for i in range(int(self.size.get_val())):
-                f = self.field_l[i]
                 ret = ExprBinModel(
                     ret,
                     BinExprType.Add,
-                    ExprFieldRefModel(f))
+                    self._elem_expr(i, 0))
                 
             self.sum_expr = ret
             
@@ -191,11 +205,10 @@ class FieldArrayModel(FieldCompositeModel):
             else:
                 ret = ExprLiteralModel(1, self.is_signed, 64)
             for i in range(int(self.size.get_val())):
-                f = self.field_l[i]
                 ret = ExprBinModel(
                     ret,
                     BinExprType.Mul,
-                    ExprFieldRefModel(f))
+                    self._elem_expr(i, 1))
                 
             self.product_expr = ret
             
